@@ -3,6 +3,7 @@ DESIGN.md 5.8, 5.9."""
 import re
 
 import vlib
+from checks import translate_tie
 
 _NOTE08 = ("Trusted: Coq 8.16.1 kernel; extraction (ExtrOcamlBasic) + OCaml 4.13.1; the hand-written models "
            "Descriptor/Signal.v (on top of Can/Data.v) and, for float signals, Descriptor/Physical.v, validated against the "
@@ -138,6 +139,8 @@ def run(res, replay=None):
     pid = res.id
     vlib.proof_stage(res)
     known = known_c09() if pid == "C09" else None
+    if pid == "C08":
+        translate_tie.run_tie(res, ["descriptor"])
     vlib.standard_run(res, "descriptor", harness_args(pid, res.tier, res.seed, witness=known is not None),
                       "descriptor", RULES[pid], ASSUMPTIONS[pid],
                       timeout=1500 if res.tier == "quick" else 6000,
